@@ -129,7 +129,8 @@ impl Sub for Weekday {
 impl Add<u8> for Weekday {
     type Output = Self;
     fn add(self, rhs: u8) -> Self {
-        Self::from(u8::from(self) + rhs)
+        // Reduce the day count first: only its value modulo 7 matters, and the sum cannot overflow anymore.
+        Self::from(u8::from(self) + rhs.rem_euclid(Self::MAX))
     }
 }
 
